@@ -107,7 +107,6 @@ func exploreGate(c *an.Ctx, s *sched, rule string) ([]gateRow, bool) {
 		return "other:" + an.Prov(v)
 	}
 	// result φ: header φ that flows to a return
-	stop := l.StopSet()
 	entry := l.BodyEntry()
 	if entry == nil {
 		c.Und(rule, key, g.Pos(), "loop has no body")
@@ -118,9 +117,10 @@ func exploreGate(c *an.Ctx, s *sched, rule string) ([]gateRow, bool) {
 	for _, stv := range s.statusDomain() {
 		for _, af := range []bool{false, true} {
 			stv, af := stv, af
-			ex := &an.Explorer{P: c.P, Stop: stop, NoReturn: noReturn, MaxDepth: 3,
+			ex := &an.Explorer{P: c.P, NoReturn: noReturn, MaxDepth: 3,
 				Inline: func(f *ssa.Function) bool { return f.Pkg == g.Pkg && f != s.schedule },
 			}
+			l.Bound(ex)
 			ex.Atom = func(v ssa.Value) (an.AVal, bool) {
 				switch x := v.(type) {
 				case *ssa.Call:
@@ -816,8 +816,8 @@ func edgeWiring(c *an.Ctx, s *sched, rule string) {
 		return
 	}
 	_, elems := depLoop.RangeKeyValue()
-	stop := depLoop.StopSet()
-	ex := &an.Explorer{P: p, Stop: stop, NoReturn: noReturn}
+	ex := &an.Explorer{P: p, NoReturn: noReturn}
+	depLoop.Bound(ex)
 	ex.Effect = func(in ssa.Instruction, st *an.State) string {
 		call, ok := in.(*ssa.Call)
 		if !ok {
@@ -863,7 +863,7 @@ func edgeWiring(c *an.Ctx, s *sched, rule string) {
 		}
 		ok := true
 		for _, ret := range an.Returns(f) {
-			lk, isLk := an.Resolve(ret.Results[0]).(*ssa.Lookup)
+			lk, isLk := an.Resolve(an.RetVal(ret, 0)).(*ssa.Lookup)
 			if !isLk || an.AccessPath(lk.X).LastField() != acc.field || !an.SameValue(lk.Index, f.Params[1]) {
 				ok = false
 			}
